@@ -91,3 +91,6 @@ Lemma literal_inventory :
   forallb (fun sq => near_one (snd sq * mu0_setter_magnetization) (1 # 1000000000000000)) inv_mu0_literal_sites = true /\
   forallb (fun sq => near_one (snd sq * four_pi_b64) (2 # 10000000000)) mu0_mixed_sites = true.
 Proof. repeat split; vm_compute; reflexivity. Qed.
+
+Lemma setters_atomic_ok : setters_atomic = true.
+Proof. vm_compute. reflexivity. Qed.
